@@ -71,15 +71,18 @@ def store_jobs(prop, tier, seed):
                  gen_job('complex_p1', 'complex', 1, depth=3, style=style),
                  gen_job('complex_p2', 'complex', 2, depth=3, style=(style + 1) % 5),
                  gen_job('complex_p2r', 'complex', 2, depth=2, style=(style + 1) % 5, reads=light),
-                 gen_job('remove_p4', 'remove', 4, depth=5, style=style),
+                 gen_job('remove_p4', 'remove', 4, depth=5, style=style, sample_mod=4),
                  gen_job('remove_p4r', 'remove', 4, depth=3, style=style, reads=light),
-                 gen_job('remove_p3', 'remove', 3, depth=5, style=(style + 1) % 5),
+                 gen_job('remove_p3', 'remove', 3, depth=5, style=(style + 1) % 5, sample_mod=4),
                  gen_job('remove_p5', 'remove', 5, depth=3, style=(style + 1) % 5, reads=light, **big),
                  gen_job('remove_p6', 'remove', 6, depth=3, style=(style + 2) % 5, reads=light, **big),
                  gen_job('all_p3', 'all', 3, depth=2, style=(style + 1) % 5),
                  gen_job('all_p4', 'all', 4, depth=2, style=(style + 2) % 5),
-                 gen_job('all_p5', 'all', 5, depth=2, style=(style + 3) % 5, **big),
-                 gen_job('all_p6', 'all', 6, depth=2, style=(style + 4) % 5, **big),
+                 # (depth 2 over these preludes is ~10^7 behaviours: one exhaustive step, then random walks)
+                 gen_job('all_p5', 'all', 5, depth=1, style=(style + 3) % 5, **big),
+                 gen_job('all_p6', 'all', 6, depth=1, style=(style + 4) % 5, **big),
+                 gen_job('sim_all_p5', 'all', 5, simulate=300, simdepth=4, style=(style + 3) % 5, sample_mod=3, **big),
+                 gen_job('sim_all_p6', 'all', 6, simulate=300, simdepth=4, style=(style + 4) % 5, sample_mod=3, **big),
                  gen_job('all_p5r', 'all', 5, depth=1, style=style, reads=reads, **big),
                  gen_job('all_p6r', 'all', 6, depth=1, style=style, reads=reads, **big),
                  gen_job('fail_p2', 'fail', 2, depth=3, style=style),
